@@ -134,6 +134,21 @@ Example C22_monitor_rejects_a_narrow_window :
      (connect_with 3 11 24 0 72, OItems [IAa 2946085722 16154888; ICe 10 14998 18752 30000]);
      (Ev 0 [], OItems [ICe 20 29999 30001 30000])] = Bad 2.
 Proof. exact monitor22_rejects_narrow_window. Qed.
+(* two connection updates with the same interval / latency / timeout and different transmit windows: connection_changed
+   reports the same values twice; the monitor judges each instant against ITS update's transmit window (the oldest
+   outstanding update with the reported values is the applied one and is consumed) - accepted as the model runs it,
+   rejected when the second instant's window sits at the first update's offset.  Regression of a false alarm. *)
+Example C22_like_updates_are_both_applied :
+  exists it1 it2 d,
+    nth_error (trace_of cfg_base session22_like_updates) 4 = Some (Ev 0 [], OItems it1) /\ In (ICb (EvChanged d)) it1 /\
+    nth_error (trace_of cfg_base session22_like_updates) 9 = Some (Ev 0 [], OItems it2) /\ In (ICb (EvChanged d)) it2.
+Proof. exact like_updates_both_applied. Qed.
+Example C22_monitor_accepts_like_updates :
+  mrun22 cfg_base (minit22 cfg_base) (trace_of cfg_base session22_like_updates) = Ok.
+Proof. exact like_updates_accepted. Qed.
+Example C22_monitor_rejects_the_other_update's_window :
+  mrun22 cfg_base (minit22 cfg_base) (tamper 9 2500 (trace_of cfg_base session22_like_updates)) = Bad 2.
+Proof. exact like_updates_wrong_window_rejected. Qed.
 Example C22_monitor_rejects_interval_zero :
   mrun22 cfg_base (minit22 cfg_base)
     [(Run, OItems [IAa 2391391958 5592405; IAdv 37]);
@@ -158,7 +173,15 @@ Proof. exact repaired_model_refuses. Qed.
 (* constants and the shape of check_timing_paremeters() read from the sources on every run: the sleep clock accuracy table
    and the fixed point constants of ppm are the specified ones; the conjuncts of the check are those of the repaired
    code (on the unrepaired tree this Example fails: a named, failing obligation) *)
-Example C22_sca_table_is_the_core_specification's : GenLL.inaccuracy_ppm = [500; 250; 150; 100; 75; 50; 30; 20].
+Example C22_sca_table_is_the_core_specification's : GenLL.inaccuracy_ppm = core_sca_ppm.
+Proof. reflexivity. Qed.
+(* GenLL.inaccuracy_ppm = the values sleep_clock_accuracy() RETURNS in the source at hand (initialisers evaluated with C
+   semantics and put through the return statement's arithmetic; gen/consts/ll.py); core_sca_ppm = the Core specification's
+   table as a literal (LLSpecC22).  So: the model's combined accuracy is the specification's, for every connect request *)
+Example C22_core_sca_table : core_sca_ppm = [500; 250; 150; 100; 75; 50; 30; 20].
+Proof. reflexivity. Qed.
+Theorem C22_model_accuracy_is_the_specification's :
+  forall body, sleep_clock_accuracy body = sca_ppm (N.land (N.shiftr (byte body 33) 5) 7).
 Proof. reflexivity. Qed.
 Example C22_ppm_constants : GenLL.ppm_multiplier = 140737488 /\ GenLL.ppm_shift = 47 /\ GenLL.num_windows_til_timeout = 6.
 Proof. repeat split; reflexivity. Qed.
